@@ -187,7 +187,7 @@ KEYS = {"Value": "Value", "Var": "Var", "Not": "!", "Neg": "neg", "IsEmpty": "is
         "kind": "kind", "body": "body", "when": "when", "unless": "unless", "op": "op", "All": "All", "entity": "entity",
         "entities": "entities", "type": "type", "id": "id", "Entity": "__entity", "Extn": "__extn", "fn": "fn", "ip": "ip",
         "decimal": "decimal", "datetime": "datetime", "duration": "duration", "uid": "uid", "attrs": "attrs", "parents": "parents",
-        "tags": "tags", "staticPolicies": "staticPolicies", "slot": "slot"}
+        "tags": "tags", "staticPolicies": "staticPolicies", "slot": "slot", "lessThan": "lessThan"}
 jk = ["------------------------------ MODULE JsonKeys ------------------------------",
       "(* GENERATED by tools/genuniverse.py -- key and keyword strings of the JSON formats as code points. *)"]
 for name, text in KEYS.items():
